@@ -3,9 +3,10 @@ import ErdosVerif.Lemmas.SimLedgerRun
 # C04 over a whole run — held iff resident
 
 The ledger-level laws of `Props/C04.lean` quantify over arbitrary operation histories on one
-pool. Here: in every state a run of the simulator model `Model/Sim.lean` reaches at the head of
-the `simulate()` loop and when it ends normally (any world satisfying the decidable predicate
-`lwf0`, any decision tape, any draw tape, any fuel), for every worker of every pool the ledger
+pool. Here: in every state a run of the simulator model `Model/Sim.lean` can be in — at the head
+of the `simulate()` loop, at a normal end, out of fuel, or at the raise point of an aborted
+handler (any world satisfying the decidable predicate `lwf0`, any decision tape, any draw tape,
+any fuel) — for every worker of every pool the ledger
 entries keyed by tasks are exactly the residents placed with a non-batch strategy, the entries
 keyed by batch placeholders are exactly the placeholders of the live batches (whose members are
 exactly the residents placed with the batch's strategy), and every profile entry belongs to a
@@ -67,17 +68,26 @@ theorem heldIffResident_of_tok (w : Worker) (hl : w.LOK) : HeldIffResident w := 
       · exact Or.inl ((AList.lr_has_iff_mem _ _).mp h1)
       · exact Or.inr ((AList.lr_has_iff_mem _ _).mp h1)
 
-/-- **Held iff resident when the run ended normally**: for every worker, a task key is in the
-ledger iff the task is resident with a non-batch strategy; profile entries belong to loaded or
+/-- **Held iff resident in every state a run can be in** — after the constructor and any number
+of loop iterations, ended normally, out of fuel or aborted by an exception at any point of any
+handler: for every worker, a task key is in the ledger iff the task is resident with a non-batch
+strategy; a `.batch` key is in the ledger iff it is the placeholder of a live batch, whose members
+are exactly the residents placed with the batch's strategy; profile entries belong to loaded or
 loading profiles; no key occurs twice. -/
-theorem held_iff_resident_at_end (s0 : SimS) (fuel : Nat) (h : lwf0 s0 = true) (hok : (simulate s0 fuel).1 = none) :
+theorem held_iff_resident (s0 : SimS) (fuel : Nat) (h : lwf0 s0 = true) :
     ∀ p ∈ (simulate s0 fuel).2.pools.toList, ∀ w ∈ p.workers, HeldIffResident w :=
-  fun p hp w hw => heldIffResident_of_tok w ((simulate_ledger s0 fuel (good_initial s0 h) hok).2 p hp w hw)
+  fun p hp w hw => heldIffResident_of_tok w ((simulate_ledger_weak s0 fuel (good_initial s0 h)).2 p hp w hw)
+
+/-- The same when the run ended normally (a corollary, kept for the registry). -/
+theorem held_iff_resident_at_end (s0 : SimS) (fuel : Nat) (h : lwf0 s0 = true) (_hok : (simulate s0 fuel).1 = none) :
+    ∀ p ∈ (simulate s0 fuel).2.pools.toList, ∀ w ∈ p.workers, HeldIffResident w :=
+  held_iff_resident s0 fuel h
 
 /-- **… and at the head of the `simulate()` loop after any number `k` of completed iterations**
-(if one of them raised, the weak residency invariant `WInv` holds at the raise point). -/
+(and at the raise point if one of them raised). -/
 theorem held_iff_resident_at_loop_head (s0 : SimS) (k : Nat) (h : lwf0 s0 = true) :
-    HoldsAfter (fun _ s => ∀ p ∈ s.pools.toList, ∀ w ∈ p.workers, HeldIffResident w) WInv
+    HoldsAfter (fun _ s => ∀ p ∈ s.pools.toList, ∀ w ∈ p.workers, HeldIffResident w)
+      (fun s => ∀ p ∈ s.pools.toList, ∀ w ∈ p.workers, HeldIffResident w)
       ((ExceptT.run (do init; runK k : SimM Bool)).run s0) := by
   have := loop_head_ledger s0 k (good_initial s0 h)
   revert this
@@ -85,7 +95,23 @@ theorem held_iff_resident_at_loop_head (s0 : SimS) (k : Nat) (h : lwf0 s0 = true
   | mk r s =>
     cases r with
     | ok a => intro hA p hp w hw; exact heldIffResident_of_tok w (hA.2 p hp w hw)
-    | error e => intro hW; exact hW
+    | error e => intro hW p hp w hw; exact heldIffResident_of_tok w (hW.2 p hp w hw)
+
+/-- **In every reachable state a refused `Worker.remove_task` changes nothing, and `remove_task` of
+a resident task is never refused** — batch members included (the full form of
+`refusal_noop_remove_partial`, under the invariant of the run). -/
+theorem refusal_noop_remove_in_run (s0 : SimS) (fuel : Nat) (h : lwf0 s0 = true) :
+    ∀ p ∈ (simulate s0 fuel).2.pools.toList, ∀ w ∈ p.workers, ∀ t,
+      ((w.removeTask t).2 ≠ .ok → (w.removeTask t).1 = w) ∧
+      (t ∈ AList.keys w.placed → (w.removeTask t).2 = .ok) := by
+  intro p hp w hw t
+  have hl := (simulate_ledger_weak s0 fuel (good_initial s0 h)).2 p hp w hw
+  refine ⟨Worker.removeTask_refused_of_LOK w t hl, ?_⟩
+  intro hm
+  have := AList.get?_isSome_of_mem _ _ hm
+  cases hs : AList.get? w.placed t with
+  | none => simp [hs] at this
+  | some s => exact Worker.removeTask_ok_of_LOK w t s hl hs
 
 /-- Non-vacuity: a worker with one resident task satisfies the set equation, a worker whose
 ledger forgot the task does not; a worker with a two-member batch (one placeholder entry). -/
